@@ -1079,6 +1079,32 @@ fn gen_entity_group(g: &mut Gen) -> Vec<(String, String)> {
     g.regions[ar].head = format!("architecture {} of {} is\n", g.d(a), g.r(e, "architecture_entity_name"));
     g.regions[ar].mid = "begin\n".into();
     g.regions[ar].tail = if g.rng.chance(1, 2) { format!("end architecture {};\n", g.raw(a)) } else { "end architecture;\n".into() };
+    // further architectures of the same entity: every declaration of the entity (ports, generics, items of the entity
+    // declarative part) may be referenced from one / some / all / none of them -- the lint takes the union
+    let n_entity_targets = g.targets.len();
+    let n_extra = match gid % 4 {
+        0 => 1,
+        1 => 2,
+        _ => 0,
+    };
+    let mut extra_archs = vec![];
+    for k in 0..n_extra {
+        let ax = g.named_ent(format!("a{}_g{}", k + 2, gid), "design", None, None, false);
+        let rx = g.region(Rk::Arch, ax, false);
+        g.regions[rx].head = format!("architecture {} of {} is\n", g.d(ax), g.r(e, "architecture_entity_name"));
+        g.regions[rx].mid = "begin\n".into();
+        g.regions[rx].tail = if g.rng.chance(1, 2) { format!("end architecture {};\n", g.raw(ax)) } else { "end architecture;\n".into() };
+        for i in 0..n_entity_targets {
+            let t = g.targets[i].clone();
+            // only declarations made directly in the entity (header or declarative part) are visible in an architecture
+            if t.region == er || t.region == ar {
+                g.targets.push(Target { what: t.what, region: rx });
+            }
+        }
+        let nloc = g.rng.below(3);
+        g.declare_items(rx, nloc);
+        extra_archs.push((ax, rx));
+    }
     let n = 3 + g.rng.below(6);
     g.declare_items(ar, n);
     // processes with local declarations
@@ -1123,11 +1149,29 @@ fn gen_entity_group(g: &mut Gen) -> Vec<(String, String)> {
     let mut cstats = vec![];
     let etext = close_names(&g.render(er), &mut crng, &mut cstats);
     let atext = close_names(&g.render(ar), &mut crng, &mut cstats);
+    let mut xtexts = vec![];
+    for (_ax, rx) in &extra_archs {
+        xtexts.push(close_names(&g.render(*rx), &mut crng, &mut cstats));
+    }
     g.site_stats.extend(cstats);
     if g.split {
-        vec![(format!("g{}_e.vhd", gid), etext), (format!("g{}_a.vhd", gid), atext)]
+        let mut files = vec![(format!("g{}_e.vhd", gid), etext), (format!("g{}_a.vhd", gid), atext)];
+        for (k, t) in xtexts.into_iter().enumerate() {
+            files.push((format!("g{}_a{}.vhd", gid, k + 2), t));
+        }
+        if let Some((ax, _)) = extra_archs.last() {
+            // replacement of the last architecture by one that references nothing (an edit touching one architecture only)
+            let name = files.last().unwrap().0.clone();
+            g.alt = Some((name, format!("architecture {} of {} is\nbegin\nend architecture;\n", g.d(*ax), g.r(e, "architecture_entity_name"))));
+        }
+        files
     } else {
-        vec![(format!("g{}.vhd", gid), format!("{}\n{}", etext, atext))]
+        let mut all = format!("{}\n{}", etext, atext);
+        for t in xtexts {
+            all.push('\n');
+            all.push_str(&t);
+        }
+        vec![(format!("g{}.vhd", gid), all)]
     }
 }
 
@@ -1199,9 +1243,10 @@ fn gen_package_group(g: &mut Gen) -> Vec<(String, String)> {
     }
 }
 
-pub fn gen_group(seed: u64, gid: usize, is_entity: bool, split: bool) -> (Vec<Value>, Vec<String>) {
+pub fn gen_group(seed: u64, gid: usize, is_entity: bool, split: bool) -> (Vec<Value>, Vec<String>, Option<Value>) {
     let mut g = Gen::new(seed, gid);
     g.split = split;
     let files = if is_entity { gen_entity_group(&mut g) } else { gen_package_group(&mut g) };
-    (files.into_iter().map(|(n, t)| json!([n, t])).collect(), g.site_stats.clone())
+    let alt = g.alt.clone().map(|(n, t)| json!([n, t]));
+    (files.into_iter().map(|(n, t)| json!([n, t])).collect(), g.site_stats.clone(), alt)
 }
